@@ -345,7 +345,10 @@ def run(ctx):
                   minimum=1)
     ra = ctx.rule('R-AFTERRELEASE', 'no use of an object after the function gave its (last owned) reference away',
                   minimum=40)
+    rha = ctx.rule('R-HANDLEASSIGN', 'IntrusivePtr same-type move assignment swaps (the handles\' defaulted move '
+                   'assignment relies on the moved-from destructor protocol)', minimum=4)
     for cfg, fb in sorted(fbs.items()):
+        lib_core.check_handle_assign(ctx, fb, rha)
         check_core(ctx, fb, ro, rf, rb)
         lib_core.check_after_release(ctx, fb, ra)
         check_delete(ctx, fb, rd, ctx.root)
